@@ -73,11 +73,21 @@ def run_rust_statics():
                 # `'static` is a lifetime token, never reaches here; this is a static item
                 nxt = toks[i + 1].s if i + 1 < n else ""
                 j = i + 1
-                while j < n and toks[j].s not in ("=", ";"):
+                depth = 0
+                while j < n and not (depth == 0 and toks[j].s in ("=", ";")):
+                    if toks[j].s in ("[", "(", "<"):
+                        depth += 1
+                    elif toks[j].s in ("]", ")", ">"):
+                        depth -= 1
                     j += 1
                 decl = " ".join(x.s for x in toks[i:j])
                 ty = decl.split(":", 1)[1].strip().replace(" ", "") if ":" in decl else ""
+                import re as _re
                 if nxt == "mut":
+                    bad.append((rel, t.line, decl))
+                elif _re.search(r"Atomic[A-Z]\w*|\b(Cell|RefCell|UnsafeCell|OnceCell|LazyCell|Mutex|RwLock|OnceLock|LazyLock|Once|"
+                                r"Condvar|Barrier|SyncUnsafeCell)\b", ty):
+                    # interior mutability: shared mutable state even without `mut`
                     bad.append((rel, t.line, decl))
                 elif ty.replace("'static", "").replace(" ", "") in [x.replace(" ", "").replace("'static", "") for x in IMMUTABLE_TY] \
                         or ty.startswith("[u8;") or ty.startswith("&[u8;"):
